@@ -57,3 +57,13 @@ Print Assumptions C18_items_list_dual.
 Example C18_ex_slice : slice_indices_opt None (Some 0) (Some 1) 1 = Some (0, 0, 1). Proof. reflexivity. Qed.
 Example C18_ex_key : wfb (KT [KS "a"; KT [KS "b"; KT [KS "c"]]]) = true
   /\ cpp_unravel_to_tuple (KT [KS "a"; KT [KS "b"; KT [KS "c"]]]) = ["a"; "b"; "c"]%string. Proof. split; reflexivity. Qed.
+
+(* every site of the library that branches on is_compiling() (list re-translated from /repo on every run) is classified, and
+   every helper classified as a modelled dual path still has its compile branch: a new compile-only code path cannot appear,
+   and a modelled one cannot disappear, without this theorem failing *)
+From TD Require Import Model.C18_Sites Gen.C18_sites.
+Theorem C18_sites_classified :
+  forallb is_classified compile_sites = true
+  /\ forallb (fun d => existsb (site_eqb d) compile_sites) dual_sites = true.
+Proof. split; vm_compute; reflexivity. Qed.
+Print Assumptions C18_sites_classified.
